@@ -12,6 +12,8 @@ Lines:
   `setkey <flag x-hex> <api.key content x-hex | ->`          → `key=<x-hex|random> file=<=key|x-hex|->`
   `nodekey <cli|mobile|struct> <configured key x-hex> <api.key x-hex | ->`
        → `key=… file=… initial=<outcome of a key-less bcn_syncing on the initial endpoint> keyless=… wrong=… right=…`
+  `nodestart <cli|mobile|struct> <configured key x-hex> <dir|symlink|parentfile>`  (api.key location unusable)
+       → `start=refused` | `start=ran key=… initial=… keyless=…`
   `gfact nodector <func> <yes|no>` / `gfact rpcstart <callee> <encl> <recv|norecv>` / `gfact initial-order <…>` → `ok`
   `gfact stmt <kind>` / `gfact site <callee> <encl>` / `gfact handle-first <kind>` / `gfact loop <what>`  → `ok`
   `gfact newserver <encl> <kind> <callers>` / `gfact keypass <caller> <callee> <class>`                   → `ok`
@@ -219,6 +221,19 @@ def step (d : DSt) (line : String) : DSt × String :=
           " wrong=" ++ ask (fullCfg r.1) mModules [.str r.1.dropLast] .absent ++
           " right=" ++ ask (fullCfg r.1) mModules [.str r.1] .absent)
     | _, _ => (d, "bad-op")
+  | ["nodestart", entry, flag, fault] =>
+    if entry ≠ "cli" ∧ entry ≠ "mobile" ∧ entry ≠ "struct" then (d, "bad-op") else
+    if fault ≠ "dir" ∧ fault ≠ "symlink" ∧ fault ≠ "parentfile" then (d, "bad-op") else
+    match parseHex flag with
+    | some fl =>
+      -- every fault makes api.key unreadable and unwritable
+      match effectiveKey fl { file := none, writable := false } [0] with
+      | none => (d, "start=refused")
+      | some k =>
+        (d, "start=ran key=" ++ (if k.isEmpty then "empty" else if k == [0] then "random" else bytesToHex k) ++
+            " initial=" ++ ask (initialCfg k) mSyncing [] (.arr []) ++
+            " keyless=" ++ ask (fullCfg k) mModules [] .absent)
+    | none => (d, "bad-op")
   | ["gfact", "nodector", f, ok] => ({ d with ctors := (f, ok) :: d.ctors }, "ok")
   | ["gfact", "rpcstart", _, _, r] => ({ d with rpcStarts := r :: d.rpcStarts }, "ok")
   | ["gfact", "initial-order", o] => ({ d with initialOrder := o }, "ok")
